@@ -84,7 +84,7 @@ func checkC12Woven(env *engine.Env, c C12Case) engine.Outcome {
 	runOnce := func(prefix []int) []vrt.Point {
 		n := len(c.Formats)
 		cfgs := make([]*nfpm.Config, n)
-		if c.Mode == "S1" {
+		if c.Mode == "S1" || c.Mode == "S1v" {
 			cfg, _ := parseYAML(text, nil)
 			for i := range cfgs {
 				cfgs[i] = &cfg
@@ -96,7 +96,7 @@ func checkC12Woven(env *engine.Env, c C12Case) engine.Outcome {
 			}
 		}
 		vrt.ShareReset()
-		if c.Mode == "S1" {
+		if c.Mode == "S1" || c.Mode == "S1v" {
 			vrt.Share("config", cfgs[0])
 		}
 		vrt.ShareGlobals()
@@ -104,7 +104,12 @@ func checkC12Woven(env *engine.Env, c C12Case) engine.Outcome {
 		bodies := make([]func(), n)
 		for i := range bodies {
 			i := i
-			bodies[i] = func() { res[i] = buildHash(cfgs[i], c.Formats[i]) }
+			bodies[i] = func() {
+				if c.Mode == "S1v" {
+					_ = cfgs[i].Validate()
+				}
+				res[i] = buildHash(cfgs[i], c.Formats[i])
+			}
 		}
 		var r vrt.Result
 		gcOff(func() { r = vrt.Run(prefix, bodies...) })
